@@ -503,6 +503,7 @@ def ofZ (z : Int) (w : Nat) : Option WInt :=
 def ofZ2 (lb ub : Int) (w : Nat) : Option WInt :=
   if !(WrapInt.fitsWrapint lb w) then some top
   else if !(WrapInt.fitsWrapint ub w) then some top
+  else if ((2 ^ w : Nat) : Int) - 1 ≤ ub - lb then some top   -- repo commit "mk_winterval ... wider than the circle"
   else match WrapInt.ofZ? lb w, WrapInt.ofZ? ub w with
     | some a, some b => some (mk2 a b)
     | _, _ => none
